@@ -34,8 +34,15 @@ def scheme_re(fname):
     return re.compile(pat)
 
 
-def day_of(ms):
-    return datetime.datetime.fromtimestamp(ms / 1000.0, datetime.timezone.utc).strftime("%Y-%m-%d")
+# fixed-offset POSIX time zones (no tzdata needed, no DST): name -> seconds east of UTC
+TZ_CHOICES = {"UTC": 0, "AAA-9": 9 * 3600, "BBB+11": -11 * 3600, "CCC-5:45": 5 * 3600 + 45 * 60, "DDD+3:30": -(3 * 3600 + 30 * 60)}
+_TZ_OFFSET = [0]   # offset of the history being analysed (the analysis is single-threaded per process)
+
+
+def day_of(ms, offset_s=None):
+    """calendar day of an epoch-millisecond stamp in the history's time zone"""
+    off = _TZ_OFFSET[0] if offset_s is None else offset_s
+    return datetime.datetime.fromtimestamp(ms / 1000.0 + off, datetime.timezone.utc).strftime("%Y-%m-%d")
 
 
 # ------------------------------------------------------------------ history generation
@@ -50,12 +57,13 @@ class History:
         self.autoobs = 1
         self.start_ms = 0
         self.real = False
+        self.tz = "UTC"
         self.ops = []          # tuples: ("W", id, text, lag) ("ADV", ms) ("RESTART",) ("FLUSH",) ("FOREIGN", name, bytes) ("MKDIR", name) ("MIDNIGHT", k)
         self.tags = set()
 
     def config(self):
         return {"L": self.L, "N": self.N, "options": self.options, "fname": self.fname, "gran_ns": self.gran_ns,
-                "autoobs": self.autoobs, "start_ms": self.start_ms, "real": self.real}
+                "autoobs": self.autoobs, "start_ms": self.start_ms, "real": self.real, "tz": self.tz}
 
     def to_json(self):
         ops = []
@@ -179,9 +187,12 @@ def gen_history(rnd, profile):
     big_ok = rnd.random() < profile.get("big_p", 0.0)
     base_day = datetime.datetime(2015, 1, 1, tzinfo=datetime.timezone.utc).timestamp() * 1000
     h.start_ms = int(base_day + rnd.randrange(0, 500) * DAY_MS + rnd.randrange(0, DAY_MS))
+    if rnd.random() < profile.get("tz_p", 0.3):
+        h.tz = rnd.choice(sorted(TZ_CHOICES))
     if rnd.random() < 0.15:
-        # close to midnight
-        h.start_ms = (h.start_ms // DAY_MS) * DAY_MS + DAY_MS - rnd.randint(1, 3000)
+        # close to (local) midnight
+        off_ms = TZ_CHOICES[h.tz] * 1000
+        h.start_ms = ((h.start_ms + off_ms) // DAY_MS) * DAY_MS + DAY_MS - rnd.randint(1, 3000) - off_ms
     n_ops = rnd.randint(*profile.get("n_ops", (5, 60)))
     rid = 0
     p_day = profile.get("p_day", 0.06) if not h.real else 0.0
@@ -252,7 +263,7 @@ def run_history(ctx, h, flavour="san", idx=0, keep_dir=False):
     trace = os.path.join(d, "trace.jsonl")
     with open(script, "w") as f:
         f.write(h.script(os.path.join(d, "logs")))
-    env = core.base_env(ctx.tmp)
+    env = core.base_env(ctx.tmp, tz=getattr(h, "tz", "UTC"))
     try:
         p = subprocess.run([exe, script, trace], env=env, stdout=subprocess.PIPE, stderr=subprocess.PIPE, timeout=300)
         rc, err = p.returncode, p.stderr.decode("utf-8", "replace")
@@ -718,6 +729,7 @@ class Analysis:
 
 
 def analyze(h, recs):
+    _TZ_OFFSET[0] = TZ_CHOICES.get(getattr(h, "tz", "UTC"), 0)
     a = Analysis(h, recs)
     a._reported_days = set()
     a.run()
